@@ -194,3 +194,182 @@ def expected_results(sg: Graph, dg: Graph, shape, constraint, focus, rows, ref):
         r["messages"] = sorted(wire.tkey(m) for m in msgs)
         out.append(r)
     return out
+
+
+# ───────────────────────── SPARQL-based constraint components (validators) ─────────────────────────
+COMPONENT_KINDS = ["ask_maxlen", "ask_type", "ask_two", "node_select", "prop_select", "both", "optional_param"]
+
+
+def gen_component(rng, g: Graph, k):
+    """declares one sh:ConstraintComponent; returns (component node, {validator node: template}, parameter predicates, usable on)"""
+    kind = rng.choice(COMPONENT_KINDS)
+    comp = EX["Comp%d" % k]
+    g.add((comp, RDF.type, SH.ConstraintComponent))
+    tm = {}
+    base = {"minus": False, "values": False, "service": False, "nested": None, "asVar": None, "usesPath": False, "usesSG": False}
+
+    def param(name, optional=False):
+        pn = BNode("par%d_%s" % (k, name))
+        g.add((comp, SH.parameter, pn))
+        g.add((pn, SH.path, EX[name]))
+        if optional:
+            g.add((pn, SH.optional, Literal(True)))
+        return EX[name]
+
+    def validator(pred, vtype, qpred, text, msgs, **t):
+        v = EX["Val%d_%s" % (k, str(pred).rsplit("#", 1)[-1])]
+        g.add((comp, pred, v))
+        if rng.random() < 0.7:
+            g.add((v, RDF.type, vtype))
+        g.add((v, qpred, Literal(text)))
+        g.add((v, SH.prefixes, DECL))
+        for m in msgs:
+            g.add((v, SH.message, Literal(m)))
+        tm[v] = dict(base, kind=kind, text=text, **t)
+        return v
+
+    params = []
+    if kind == "ask_maxlen":
+        params.append(param("maxLen%d" % k))
+        validator(SH.validator, SH.SPARQLAskValidator, SH.ask, "ASK { FILTER (STRLEN(STR($value)) <= $maxLen%d) }" % k,
+                  rng.sample(["{$value} longer than {$maxLen%d}" % k, "too long at {$this}", "plain"], rng.randint(0, 2)))
+    elif kind == "ask_type":
+        params.append(param("needType%d" % k))
+        validator(SH.validator, SH.SPARQLAskValidator, SH.ask, "ASK { $value a $needType%d }" % k, ["{$value} is no {$needType%d} (via {$path})" % k, "{?value}"][: rng.randint(0, 2)])
+    elif kind == "ask_two":
+        params += [param("lo%d" % k), param("hi%d" % k)]
+        validator(SH.validator, SH.SPARQLAskValidator, SH.ask, "ASK { FILTER ($lo%d <= $value && $value <= $hi%d) }" % (k, k), ["{$value} not in [{$lo%d},{$hi%d}]" % (k, k)])
+    elif kind == "node_select":
+        params.append(param("noPred%d" % k))
+        validator(SH.nodeValidator, SH.SPARQLSelectValidator, SH.select, "SELECT $this ?value WHERE { $this $noPred%d ?value }" % k, ["{$this} has {?value} for {$noPred%d}" % k])
+    elif kind == "prop_select":
+        params.append(param("notEqual%d" % k))
+        validator(SH.propertyValidator, SH.SPARQLSelectValidator, SH.select,
+                  "SELECT DISTINCT $this ?value WHERE { $this $PATH ?value . FILTER (?value = $notEqual%d) }" % k, ["{?value} equals {$notEqual%d}" % k], usesPath=True)
+    elif kind == "both":
+        params.append(param("cls%d" % k))
+        validator(SH.validator, SH.SPARQLAskValidator, SH.ask, "ASK { $value a $cls%d }" % k, ["ask: {$value} not a {$cls%d}" % k])
+        validator(SH.nodeValidator, SH.SPARQLSelectValidator, SH.select, "SELECT $this WHERE { FILTER NOT EXISTS { $this a $cls%d } }" % k, ["select: {$this} not a {$cls%d}" % k])
+    else:
+        params += [param("req%d" % k), param("opt%d" % k, optional=True)]
+        validator(SH.validator, SH.SPARQLAskValidator, SH.ask, "ASK { FILTER (STRLEN(STR($value)) >= $req%d) }" % k, ["{$value} shorter than {$req%d} (opt {$opt%d})" % (k, k)])
+    return comp, tm, params, kind
+
+
+def use_component(rng, g: Graph, shape, params, kind, k):
+    """put parameter values on `shape`"""
+    for p in params:
+        name = str(p)[len(str(EX)):]
+        if name.startswith("opt") and rng.random() < 0.5:
+            continue
+        if name.startswith("maxLen") or name.startswith("req"):
+            v = Literal(rng.choice((0, 1, 3, 5)))
+        elif name.startswith("needType") or name.startswith("cls"):
+            v = rng.choice(CLASSES)
+        elif name.startswith("lo"):
+            v = Literal(rng.choice((0, 2)))
+        elif name.startswith("hi"):
+            v = Literal(rng.choice((2, 5)))
+        elif name.startswith("noPred"):
+            v = rng.choice(PREDS)
+        elif name.startswith("notEqual"):
+            v = rng.choice([Literal(1), Literal(2), Literal("a"), NODES[0], NODES[1]])
+        else:
+            v = Literal("x")
+        g.add((shape, p, v))
+
+
+def component_of(sg, validator):
+    for pred in (SH.validator, SH.nodeValidator, SH.propertyValidator):
+        for c in sg.subjects(pred, validator):
+            return c, pred
+    return None, None
+
+
+def choose_validator(sg, comp, is_prop):
+    """SHACL §6.2.3: property shape -> sh:propertyValidator (SELECT), node shape -> sh:nodeValidator (SELECT), else sh:validator (ASK)"""
+    pv, nv = list(sg.objects(comp, SH.propertyValidator)), list(sg.objects(comp, SH.nodeValidator))
+    v = [x for x in sg.objects(comp, SH.validator) if x not in pv and x not in nv]
+    if is_prop and pv:
+        return pv[0], "select"
+    if not is_prop and nv:
+        return nv[0], "select"
+    if v:
+        return v[0], "ask"
+    return None, None
+
+
+def run_validator_directly(sg, dg, validator, kind, shape, focus, value, params):
+    text = str(sg.value(validator, SH.ask if kind == "ask" else SH.select))
+    pth = sg.value(shape, SH.path)
+    if pth is not None:
+        import oracle_core
+        text = re.sub(r"([\s{}()])[\$\?]PATH", lambda m: m.group(1) + pathgen.sparql(oracle_core.decode_path(sg, pth)), text)
+    binds = {"this": focus}
+    if kind == "select_free":
+        kind = "select"        # SHACL-SPARQL: ?value is a result variable of a SELECT validator, not pre-bound
+    elif kind == "ask" or re.search(r"[\$\?]value\b", text):
+        binds["value"] = value
+    for name, v in params.items():
+        binds[name] = v
+    binds = {k: v for k, v in binds.items() if re.search(r"[\$\?]%s\b" % re.escape(k), text) or k in ("this",)}
+    res = dg.query(prefix_block(sg, validator) + text, initBindings=binds)
+    if kind == "ask":
+        return bool(res.askAnswer)
+    return [{str(k): v for k, v in r.asdict().items()} for r in res]
+
+
+def param_values(sg, comp, shape):
+    out = {}
+    for pn in sg.objects(comp, SH.parameter):
+        path = sg.value(pn, SH.path)
+        vals = list(sg.objects(shape, path))
+        if vals:
+            out[str(path)[len(str(EX)):]] = vals[0]
+    return out
+
+
+def applicable(sg, comp, shape):
+    for pn in sg.objects(comp, SH.parameter):
+        opt = sg.value(pn, SH.optional)
+        if opt is not None and opt.value is True:
+            continue
+        if not list(sg.objects(shape, sg.value(pn, SH.path))):
+            return False
+    return True
+
+
+def validator_tables(sg: Graph, dg: Graph, ref):
+    """VAL entries for vcase: (validator, shape, focus, value, 'A'|'R', answer)"""
+    out = []
+    comps = list(sg.subjects(RDF.type, SH.ConstraintComponent))
+    for shape in ref.shapes() | set(sg.objects(None, SH.property)):
+        is_prop = ref.is_prop(shape)
+        for comp in comps:
+            if not applicable(sg, comp, shape):
+                continue
+            v, kind = choose_validator(sg, comp, is_prop)
+            if v is None:
+                continue
+            params = param_values(sg, comp, shape)
+            foci = ref.targets(shape) or set()
+            if any(True for _ in sg.subjects(None, shape)):
+                foci = foci | set(dg.all_nodes())
+            for f in foci:
+                try:
+                    vals = ref.value_nodes(shape, f)
+                except Exception:
+                    continue
+                if kind == "select":
+                    try:
+                        out.append((v, shape, f, f, kind, run_validator_directly(sg, dg, v, "select_free", shape, f, None, params)))
+                    except Exception:
+                        pass
+                    continue
+                for val in vals:
+                    try:
+                        ans = run_validator_directly(sg, dg, v, kind, shape, f, val, params)
+                    except Exception:
+                        continue
+                    out.append((v, shape, f, val, kind, ans))
+    return out
